@@ -47,6 +47,14 @@ void use_memory_copy(E *a, const E *c, const E *d, int n) {
   sink(amc::uninitialized_copy_n(c, n, a));
 }
 
+// value category forwarding of construct_at: one instantiation per category
+inline void use_construct_forwarding(arch::ThreeWay *p, arch::ThreeWay &l, const arch::ThreeWay &c, arch::Greedy *g, arch::Greedy &gl) {
+  sink(amc::construct_at(p, l));
+  sink(amc::construct_at(p, c));
+  sink(amc::construct_at(p, static_cast<arch::ThreeWay &&>(l)));
+  sink(amc::construct_at(g, gl));
+}
+
 // source and destination of different value types: the copy must convert, never reinterpret
 template <class From, class To>
 void use_memory_convert(const From *c, const From *d, To *a, int n) {
